@@ -53,9 +53,28 @@ def run_all(text, charset='E', reuse_param=None, exclude=None):
         errh = pyx12.error_handler.errh_null()
         src = pyx12.x12context.X12ContextReader(param, errh, io.StringIO(text))
         segs = []
-        for datatree in src.iter_segments('2300'):
+        import random as _r
+        lid = _r.Random(len(text)).choice(['2300', '2100', '2000', 'ST_LOOP', '2000A'])
+        for datatree in src.iter_segments(lid):
             for seg in datatree.iterate_segments():
                 segs.append(seg['segment'].format())
+            # the tree API as a user would drive it: the loop-event stream of the tree and of a COPY of it, and an edit of the copy
+            if datatree.type == 'loop' and len(segs) < 20000:
+                k_ = 0
+                for ev in datatree.iterate_loop_segments():
+                    segs.append('%s:%s' % (ev['type'], ev.get('id') or (ev['segment'].get_seg_id() if ev.get('segment') is not None else '')))
+                    k_ += 1
+                    if k_ > 3000:
+                        segs.append('MORE-THAN-3000-EVENTS')
+                        break
+                cp = datatree.copy()
+                k_ = 0
+                for ev in cp.iterate_loop_segments():
+                    segs.append('copy:%s:%s' % (ev['type'], ev.get('id') or (ev['segment'].get_seg_id() if ev.get('segment') is not None else '')))
+                    k_ += 1
+                    if k_ > 3000:
+                        segs.append('MORE-THAN-3000-EVENTS')
+                        break
         res['context'] = '\n'.join(segs)
     except Exception as e:  # noqa
         res['context'] = 'raise:' + type(e).__name__
